@@ -4,11 +4,19 @@ EXTENDS ChangeCache, Json
 RNone  == {}
 RSmall == {<<2, 3>>}
 RFour  == {<<2, 3>>, <<3, 4>>, <<2, 4>>}
+RTwo   == {<<2, 3>>, <<2, 4>>}
 RMid   == {<<2, 3>>, <<3, 5>>, <<4, 5>>}
 RAll   == {r \in (1..W) \X (1..W) : r[1] < r[2]}
 RSim   == {<<2, 3>>, <<2, 4>>, <<3, 5>>, <<4, 5>>, <<5, 7>>, <<6, 7>>, <<1, 2>>, <<3, 6>>}
 KAll   == {"doc", "princ", "unused"}
 KTwo   == {"doc", "unused"}
 KDoc   == {"doc"}
+(* document feed events: X = rev@2 then rev@5 after two wasted sequences 3,4; Y = rev@1 then rev@3; Z = rev@6 then rev@7 *)
+DNone  == {}
+DSim   == {[seq |-> 5, unused |-> <<3, 4>>, recent |-> <<2, 5>>], [seq |-> 3, unused |-> <<>>, recent |-> <<1, 3>>],
+           [seq |-> 7, unused |-> <<>>, recent |-> <<6, 7>>], [seq |-> 2, unused |-> <<>>, recent |-> <<2>>],
+           [seq |-> 6, unused |-> <<>>, recent |-> <<6>>], [seq |-> 4, unused |-> <<3>>, recent |-> <<1, 2, 4>>]}
+DOne   == {[seq |-> 4, unused |-> <<3>>, recent |-> <<1, 4>>]}
+DFour  == {[seq |-> 4, unused |-> <<3>>, recent |-> <<1, 4>>], [seq |-> 3, unused |-> <<>>, recent |-> <<2, 3>>]}
 BehaviourExport == (Len(hist) = MaxSteps) => PrintT(<<"BEH", ToJson([mn |-> maxNum, w |-> W, steps |-> hist])>>)
 =============================================================================
